@@ -21,7 +21,7 @@ type c15 struct{}
 func (c15) ID() string { return "C15" }
 func (c15) Runs(tier string) int {
 	if tier == "thorough" {
-		return 100000
+		return 600000
 	}
 	return 3000
 }
